@@ -45,7 +45,7 @@ def batches(tier: str) -> List[Batch]:
 
 def generate(batch: str, r: Rng, idx: int, tier: str) -> Dict[str, Any]:
     n = r.choice([10, 20, 40, 60])
-    code, starts = core.gen_program(r.child("prog"), n)
+    code, starts = core.gen_program(r.child("prog"), n, canon=True)
     state = core.gen_state(r.child("state"))
     steps = r.choice([20, 60, 120])
     faults: List[list] = []
